@@ -430,7 +430,7 @@ Definition line_start (L : list line) (a : Z) : Prop :=
 Definition omit_ok (L : list line) (i : Z) : Prop :=
   nthz t i = Some NL
   \/ (wrap = WSpace /\ nthz t i = Some SP /\ exists ln, In ln L /\ line_hint ln = Some i)
-  \/ (exists a a', a <= i < a' /\ W a a' = 0 /\ line_start L a /\
+  \/ (exists a a', 0 <= a /\ a <= i < a' /\ W a a' = 0 /\ line_start L a /\
                    (a' = len \/ nthz t a' = Some NL \/ nthz t a' = Some SP)).
 
 Lemma Lines_start segs a : Lines segs a -> line_start segs a.
@@ -444,7 +444,7 @@ Proof. intros [->|(l & I & N)]; [left; reflexivity | right; exists l; split; [ri
 
 Lemma omit_ok_cons L ln i : omit_ok L i -> omit_ok (ln :: L) i.
 Proof.
-  intros [H|[(A & B & l & I & N)|(a & a' & A & B & C & D)]].
+  intros [H|[(A & B & l & I & N)|(a & a' & A0 & A & B & C & D)]].
   - left; assumption.
   - right; left. repeat split; try assumption. exists l; split; [right|]; assumption.
   - right; right. exists a, a'. repeat split; try lia; try assumption. apply line_start_cons; assumption.
@@ -491,7 +491,7 @@ Qed.
 
 Lemma LineOK_fits a ln b : LineOK a ln b ->
   0 <= line_width ln <= width /\
-  (forall sc o e, In (SText sc o e) ln -> sc = W o e /\ 0 < sc /\ 0 <= o < e /\ e <= len) /\
+  (forall sc o e, In (SText sc o e) ln -> sc = W o e /\ 0 < sc <= width /\ 0 <= o < e /\ e <= len) /\
   (forall s, In s ln -> match s with SText _ _ _ => True | SPad 0 _ => True | _ => False end).
 Proof.
   intros H; inversion H; subst; cbn [line_width fold_left seg_sc]; (split; [lia|]); split.
@@ -940,29 +940,31 @@ Proof.
   replace (width - 0 - 0 - pr) with (width - pr) by lia.
   assert (Hrow : sumw cw ((if W a p =? 0 then [] else slice t a p) ++ spaces pr) = width).
   { rewrite sumw_app, sumw_spaces1 by lia. destruct (W a p =? 0) eqn:E0; cbn [sumw]; lia. }
-  assert (Hfin : forall row, sumw cw row = width ->
-            (let w := sumw cw row in if width <? w then LErr CanvasError else LOk (row ++ spaces (width - w))) = LOk row).
-  { intros row Hs. cbn zeta. rewrite Hs. replace (width <? width) with false by lia.
-    replace (width - width) with 0 by lia. cbn. now rewrite app_nil_r. }
   split; [|repeat split; try lia; try assumption; exists ch; split; [assumption | lia]].
+  assert (Hs1 : sumw cw (spaces 1) = 1) by (apply sumw_spaces1; lia).
   destruct (width - pr =? 0) eqn:E1; destruct (pr =? 0) eqn:E2; try lia; cbn [app lbind render_segs].
   - (* only the padding space remains *)
     unfold render_seg. cbn [seg_valid]. replace (negb (0 <=? 1)) with false by reflexivity. cbn [lbind app].
     replace (W a p =? 0) with true in * by lia. cbn [app] in *. rewrite app_nil_r.
-    replace pr with 1 in * by lia. apply Hfin. exact Hrow.
+    replace pr with 1 in * by lia. rewrite Hs1.
+    replace (width <? 1) with false by lia. replace (width - 1) with 0 by lia.
+    change (spaces 0) with (@nil Z). now rewrite app_nil_r.
   - unfold render_seg at 1. cbn [seg_valid]. replace (negb (0 <? width - pr)) with false by lia.
     assert (a < p).
     { destruct (Z_lt_le_dec a p); [assumption|]. rewrite slice_nil in Hc by lia. cbn in Hc. lia. }
     replace (p =? 0) with false by lia. cbn [lbind app]. rewrite app_nil_r.
     replace (W a p =? 0) with false in * by lia.
-    replace pr with 0 in * by lia. cbn [spaces Z.to_nat repeatz]. apply Hfin. exact Hrow.
+    replace pr with 0 in * by lia. rewrite <- Hc. replace c with width by lia.
+    replace (width <? width) with false by lia. replace (width - width) with 0 by lia. reflexivity.
   - unfold render_seg. cbn [seg_valid]. replace (negb (0 <? width - pr)) with false by lia.
     replace (negb (0 <=? 1)) with false by reflexivity.
     assert (a < p).
     { destruct (Z_lt_le_dec a p); [assumption|]. rewrite slice_nil in Hc by lia. cbn in Hc. lia. }
     replace (p =? 0) with false by lia. cbn [lbind app]. rewrite app_nil_r.
     replace (W a p =? 0) with false in * by lia.
-    replace pr with 1 in * by lia. apply Hfin. exact Hrow.
+    replace pr with 1 in * by lia. rewrite Hrow.
+    replace (width <? width) with false by lia. replace (width - width) with 0 by lia.
+    change (spaces 0) with (@nil Z). now rewrite app_nil_r.
 Qed.
 
 End Render.
